@@ -124,6 +124,11 @@ def run_property(pid, tier='quick', seed=0, only=None):
     jobs = []
     for c in contracts:
         ks = [k for k in known if k.get('contract') == c.id]
+        whole = [k for k in ks if k['predicate'] == '*']
+        if whole:
+            # the finding covers the contract's whole domain: only confirm that it still fails
+            jobs.append((c.id, f'known:{whole[0]["id"]}', [], thorough))
+            continue
         extra = [f'not ({k["predicate"]})' for k in ks]
         jobs.append((c.id, 'main', extra, thorough))
         for i, k in enumerate(ks):
@@ -202,6 +207,11 @@ def run_property(pid, tier='quick', seed=0, only=None):
             kid = rec['variant'].split(':', 1)[1]
             k = next(x for x in known if x['id'] == kid)
             still = [ob for ob in rec['obligations'] if ob['name'] == k['obligation'] and ob['verdict'] == 'sat']
+            if k['predicate'] == '*':
+                other = [ob for ob in rec['obligations'] if ob['name'] != k['obligation'] and ob['verdict'] == 'sat']
+                for ob in other:
+                    path = write_replay(pid, rec, ob, None)
+                    violations.append((f'{rec["cid"]}/{ob["name"]}', path, ' no-failing-input-found'))
             if still:
                 known_lines.append(f'KNOWN-FINDING: property={pid} {k["what"]} [{rec["cid"]}/{k["obligation"]} under {k["predicate"]}]')
             else:
